@@ -307,6 +307,35 @@ func genDependentStartNest(name string, k int) string {
 	return b.String()
 }
 
+// (h”) a nest without header conditions (every loop is left by break) in which each loop
+// starts at the enclosing variable and steps by the sum of the two variables further out: no
+// induction variable is referenced before the innermost body, each recurrence names three
+// enclosing ones, and beyond 20 levels the renamer depth guard fires on every path. Work must
+// stay polynomial in the depth (memoised guarded renderings).
+func genHeaderlessDependentNest(name string, k int) string {
+	var b strings.Builder
+	fmt.Fprintf(&b, "func %s(p bool, out []int) {\n", name)
+	for d := 0; d < k; d++ {
+		start, step := "0", "1"
+		if d > 0 {
+			start = fmt.Sprintf("i%d", d-1)
+		}
+		if d == 2 {
+			step = "i0"
+		}
+		if d > 2 {
+			step = fmt.Sprintf("i%d + i%d", d-2, d-3)
+		}
+		fmt.Fprintf(&b, "%sfor i%d := %s; ; i%d += %s {\n", strings.Repeat("\t", d+1), d, start, d, step)
+	}
+	fmt.Fprintf(&b, "%sout[0] = i%d\n", strings.Repeat("\t", k+1), k-1)
+	for d := k - 1; d >= 0; d-- {
+		fmt.Fprintf(&b, "%sif p {\n%s\tbreak\n%s}\n%s}\n", strings.Repeat("\t", d+2), strings.Repeat("\t", d+2), strings.Repeat("\t", d+2), strings.Repeat("\t", d+1))
+	}
+	b.WriteString("}\n\n")
+	return b.String()
+}
+
 // (d) functions with an exact number of basic blocks. A conditional increment contributes
 // two blocks (if.then, if.done); an if/else contributes three; the entry block is one.
 func genBlocks(name string, blocks int) string {
@@ -336,6 +365,7 @@ func fpFamilies() []fpFamily {
 		{name: "phi-swap-nest", quick: []int{4, 8, 16, 32}, thor: []int{4, 8, 16, 32, 64, 100}, gen: genPhiSwapNest},
 		{name: "dependent-loop-chain", quick: []int{50, 100, 200, 400}, thor: []int{25, 50, 100, 200, 400, 800}, gen: genLoopChain},
 		{name: "dependent-start-nest", quick: []int{8, 16, 32, 64}, thor: []int{8, 16, 32, 64, 100}, gen: genDependentStartNest},
+		{name: "headerless-dependent-nest", quick: []int{16, 24, 32, 40}, thor: []int{16, 24, 32, 40, 48, 60}, gen: genHeaderlessDependentNest},
 		{name: "deep-parens", quick: []int{250, 500, 1000, 2000}, thor: []int{250, 500, 1000, 2000, 4000}, gen: genDeepParens},
 		{name: "nested-closures", quick: []int{12, 25, 50}, thor: []int{12, 25, 50, 100}, gen: genNestedClosures},
 		// sizeByParam: the 40 uses of the innermost variable dominate the SSA size, so the ladder
